@@ -4,4 +4,5 @@ let find (id : string) : sx -> sx =
   match id with
   | "C11" -> model_C11
   | "C17" -> model_C17
+  | "C16" -> model_C16
   | _ -> failwith ("no extracted model for " ^ id)
